@@ -173,15 +173,15 @@ impl Atoms {
             let (alo, ahi) = self.get(a.atom);
             if alo != i128::MIN && ahi != i128::MAX {
                 let (fl, fh) = a.eval(alo, ahi);
-                r.lo = r.lo.max(f2i_floor(fl));
-                r.hi = r.hi.min(f2i_ceil(fh));
+                // the value is an integer inside [fl, fh]
+                r.lo = r.lo.max(f2i_ceil(fl));
+                r.hi = r.hi.min(f2i_floor(fh));
             }
         }
         if r.lo > r.hi {
             return None;
         }
-        if r.lo == r.hi && r.lin.as_ref().map(|l| l.m != 0 || !l.terms.is_empty()).unwrap_or(true) {
-            // singleton: the exact constant form is the most useful one
+        if r.lo == r.hi && r.lin.is_none() {
             r.lin = Some(Rc::new(Lin::konst(r.lo)));
         }
         Some(r)
